@@ -539,7 +539,7 @@ func TestRandomIgnore(t *testing.T) {
 	rec := ev.New(t, prop, "random-lists",
 		"rapid: lists of 0..6 patterns of the grammar [!][/]component(/component)*[/] (literals, *, ?, classes, a*, **; 60% derived from the probed path), path of depth 1..4 over {a,b,c,ab,.git,.hg,a.b}, directory flag, VCS option; "+ruleIgnore)
 	known := knownClasses(rec)
-	ev.Check(t, rec, 60000, 600000, func(rt *rapid.T) {
+	ev.Check(t, rec, 100000, 1000000, func(rt *rapid.T) {
 		c := &Case{}
 		c.Path = genPath(rt)
 		c.Dir = rapid.Bool().Draw(rt, "dir")
@@ -608,7 +608,7 @@ func TestRandomScan(t *testing.T) {
 	rec := ev.New(t, prop, "random-scans",
 		"rapid: trees of depth <=4, fan-out <=4 over {a,b,c,ab,.git,.hg,a.b} with directories, files, portable and absolute links, put on disk and scanned by core.Scan with a list of 0..5 patterns (mostly derived from paths of the tree) and the VCS option; snapshot shape, digest cache and ignore cache compared with the reference; "+ruleScan)
 	known := knownClasses(rec)
-	ev.Check(t, rec, 1500, 20000, func(rt *rapid.T) {
+	ev.Check(t, rec, 1000, 12000, func(rt *rapid.T) {
 		c := &Case{Tree: &Node{Kind: "dir"}}
 		var paths []string
 		c.Tree.Children = genTree(rt, 0, "", &paths)
